@@ -688,13 +688,34 @@ pub fn run_case_here(case: &Case) -> RunResult {
 		CTRL.with(|c| c.borrow_mut().seen_poison = vec![false; np]);
 	}
 	let mut runner = Runner { case, built, keys: Vec::new(), leaves };
-	for s in &case.prog {
-		if runner.stmt(s).is_err() {
-			break;
+	let outer = case.held.last() == Some(&b'!');
+	CTRL.with(|c| c.borrow_mut().outer = outer);
+	fn run_all(runner: &mut Runner<'_>, case: &Case) {
+		for s in &case.prog {
+			if runner.stmt(s).is_err() {
+				break;
+			}
+			if CTRL.with(|c| c.borrow().dead.is_some()) {
+				break;
+			}
 		}
-		if CTRL.with(|c| c.borrow().dead.is_some()) {
-			break;
+	}
+	if outer {
+		// the whole program runs inside a destructor while this thread unwinds from an unrelated
+		// panic (`thread::panicking()` is true throughout); inner panics are caught per statement
+		struct RunOnDrop<'a, 'c>(&'a mut Runner<'c>, &'a Case);
+		impl Drop for RunOnDrop<'_, '_> {
+			fn drop(&mut self) {
+				run_all(self.0, self.1)
+			}
 		}
+		struct OuterPanic;
+		let _ = catch_unwind(AssertUnwindSafe(|| {
+			let _d = RunOnDrop(&mut runner, case);
+			std::panic::panic_any(OuterPanic);
+		}));
+	} else {
+		run_all(&mut runner, case);
 	}
 	let dead = CTRL.with(|c| c.borrow().dead);
 	let (trace, raws, unknown_addr) = CTRL.with(|c| {
